@@ -120,6 +120,38 @@ def run(tier, seed, replay):
     fl, _ = vlib.run_monitor("EventStoreMon", "EventStoreMon.cfg", p)
     expect("EventStoreMon reports AfterExact on it", any(x["monfail"] == "AfterExact" for x in fl))
 
+    # ---- streamable server: the clauses the connection properties borrow from StreamSrvMon (C02/C03/C04 satellites)
+    import random
+    c08 = importlib.import_module("checks.c08")
+    rnd = random.Random(seed)
+    want = ("corner-standalone-detached-writes", "corner-two-requests-one-session", "corner-abandoned-nested-call-standalone-attached")
+    scen = [r for r in c08.corner_scenarios("C08", rnd) + c08.corner_scenarios("C10", rnd) if r["id"] in want]
+    sobs, srows = c08.run_harness(PID, scen, seed, 0, prefix="ss_")
+    smon = lambda path: [x["monfail"] for x in vlib.run_monitor("StreamSrvMon", "StreamSrvMon.cfg", path)[0]]
+    expect("StreamSrvMon raises nothing on the unmodified real traces", not smon(sobs))
+
+    def smutate(name, f, clause):
+        rr = copy.deepcopy(srows)
+        f(rr)
+        pth = os.path.join(out, "ss-" + name + ".ndjson")
+        vlib.write_ndjson(pth, rr)
+        expect("StreamSrvMon reports %s: %s" % (clause, name), clause in smon(pth))
+
+    # two consecutive events of one resumed standalone exchange (both have a position in the stream's history)
+    evs = [i for i, r in enumerate(srows) if r.get("ev") == "x.ev" and r.get("kind") == "notif"]
+    pair = [(a, b) for a, b in zip(evs, evs[1:]) if srows[a].get("x") == srows[b].get("x") and srows[a].get("tag") != srows[b].get("tag")]
+    def swap(rr):
+        a, b = pair[0]
+        ta, tb = rr[a]["tag"], rr[b]["tag"]
+        rr[a]["tag"], rr[b]["tag"] = tb, ta
+    smutate("two-messages-of-one-stream-arrive-swapped", swap, "C03.SameStreamOrder")
+    resp = [i for i, r in enumerate(srows) if r.get("ev") == "x.ev" and r.get("kind") == "resp" and r.get("tag")]
+    presp = [i for i in resp if str(srows[i].get("x", "")).startswith("p.")]
+    smutate("response-missing-on-its-post", lambda rr: rr.pop(presp[0]), "C02.HttpCallAnswered")
+    smutate("response-twice-on-one-exchange", lambda rr: rr.insert(resp[0] + 1, dict(rr[resp[0]])), "C02.HttpAnsweredAtMostOnce")
+    canc = [i for i, r in enumerate(srows) if r.get("ev") == "x.ev" and r.get("kind") == "cancel"]
+    smutate("cancellation-notice-never-arrives", lambda rr: [rr.pop(i) for i in reversed(canc)], "C04.CancelNoticeReachesPeer")
+
     for name, good in report:
         print(("ok   " if good else "FAIL ") + name)
     print("selftest:", "all binding demonstrations behave as required" if ok else "SOME DEMONSTRATIONS FAILED")
